@@ -1,4 +1,4 @@
 SPECIFICATION Spec
-CONSTANTS EntityRegexAllowsDigits = FALSE
+CONSTANTS EntityRegexAllowsDigits = FALSE FirstDeclarationBecomesDefault = TRUE
 INVARIANTS KnownNamesResolve
 CHECK_DEADLOCK FALSE
